@@ -114,11 +114,14 @@ Definition resolve (s : astate) (a : acc) : res qname :=
   end.
 
 (* TagAttributes._etree_key: `{ns}name` when ns is not the default namespace in scope, or when the store
-   already holds `{ns}name` (the lookup prefers an existing entry); else the plain name *)
+   already holds `{ns}name` (the lookup prefers an existing entry); for no namespace, `{d}name` when d is
+   the default namespace in scope and only that entry exists; else the plain name *)
 Definition clark (q : qname) : str := LBRACE :: fst q ++ RBRACE :: snd q.
 Definition etree_key (dns : str) (st : list (str * str)) (q : qname) : str :=
   if (negb (null (fst q)) && (negb (str_eqb dns (fst q)) || ahas str_eqb st (clark q)))%bool
   then clark q
+  else if (null (fst q) && negb (null dns) && negb (ahas str_eqb st (snd q)) && ahas str_eqb st (clark (dns, snd q)))%bool
+  then clark (dns, snd q)
   else snd q.
 Definition skey (s : astate) (q : qname) : str := etree_key (st_dns s) (st_store s) q.
 
@@ -514,9 +517,11 @@ Definition skey_shape (k : str) : bool :=
   | Some (None, n) => plain n
   | None => false
   end.
-(* a key `{d}name` while d is the default namespace in scope (DESIGN 13b/13e).  Since fix bde0777 such an
-   entry is reachable as (d, name); what remains outside the theorems is that the accessor ("", name)
-   does not reach it and can create a second entry `name` presented under the same key *)
+(* a key `{d}name` while d is the default namespace in scope (DESIGN 13b/13e): since the fixes bde0777 and
+   badd57c such an entry is reached under both spellings (d, name) and ("", name) of its key.  What remains
+   ambiguous is a store that holds BOTH `name` and `{d}name` (two XML attributes presented under one key);
+   it is not reachable by attribute operations (no_double is preserved) but it can be parsed:
+   <x xmlns="d" xmlns:p="d" k="1" p:k="2"/> *)
 Definition collides (dns : str) (k : str) : bool :=
   match spec_clark k with Some (Some ns, _) => str_eqb dns ns | _ => false end.
 
@@ -524,6 +529,9 @@ Definition store_shape (s : astate) : bool :=
   (plain (st_node_ns s) && plain (st_dns s) && forallb skey_shape (map fst (st_store s)) && nodupb (map fst (st_store s)))%bool.
 Definition no_collision (s : astate) : bool :=
   forallb (fun k => negb (collides (st_dns s) k)) (map fst (st_store s)).
+Definition plain_of (k : str) : str := match spec_clark k with Some (_, n) => n | None => k end.
+Definition no_double (s : astate) : bool :=
+  forallb (fun k => negb (collides (st_dns s) k && ahas str_eqb (st_store s) (plain_of k))%bool) (map fst (st_store s)).
 Fixpoint nodupq (l : list qname) : bool :=
   match l with [] => true | x :: r => (negb (existsb (qname_eqb x) r) && nodupq r)%bool end.
 Definition cache_ok (s : astate) : bool :=
@@ -532,7 +540,7 @@ Definition cache_ok (s : astate) : bool :=
                         | Some (Live q) => qname_eqb q (fst e)
                         | _ => false
                         end) (st_cache s))%bool.
-Definition attr_wf (s : astate) : bool := (store_shape s && no_collision s && cache_ok s)%bool.
+Definition attr_wf (s : astate) : bool := (store_shape s && no_double s && cache_ok s)%bool.
 
 (* the objects the client holds exist, and the live ones have their entry *)
 Definition view_ok (s : astate) (o : oid) : bool :=
